@@ -125,11 +125,14 @@ func statusSet(fp Fingerprint) string {
 
 func runC20(c *Ctx, tier string) {
 	r := NewReport("C20", "other", tier, c)
-	r.Explanation = "For each of the 23 rule pairs named by the property (5 RFC 5280/BR DNS-label rules, 9 subjectAltName/issuerAltName rules, 4 subject/issuer DN rules, Mozilla/BR DSA, BR/S-MIME AIA internal names, 3 error/warning companions) the behaviour fingerprints of CheckApplies and Execute — the multiset of resolved callees with their constant arguments, comparisons against constants, arithmetic constants, fields of the certificate read, statuses produced, type assertions and loops, with same-package helpers folded in and shared util helpers counted as one callee — are compared under the pair's declared relation: mirror pairs must be equal after renaming the mirrored fields/OIDs (DNSNames↔IANDNSNames, …, Subject↔Issuer); an RFC copy must be contained in its BR copy (which adds the common-name check) with the same statuses; severity variants equal up to the finding status; the two DSA lints equal; the S/MIME AIA lint's Execute equal to the BR one's and its CheckApplies a superset; companions equal up to one threshold constant and the finding status, with the warning threshold not above the error threshold, the same applicability, the same source and a warning window that covers the error window. Editing one copy without the other changes exactly one fingerprint and is reported with the differing features. Not a proof of behavioural equality: two bodies with equal fingerprints but different boolean structure are not distinguished."
-	r.Rule("pair-fingerprints; companion-threshold; companion-window")
+	r.Explanation = "For each of the 23 rule pairs named by the property (5 RFC 5280/BR DNS-label rules, 9 subjectAltName/issuerAltName rules, 4 subject/issuer DN rules, Mozilla/BR DSA, BR/S-MIME AIA internal names, 3 error/warning companions) the behaviour fingerprints of CheckApplies and Execute — the multiset of resolved callees with their constant arguments, comparisons against constants, arithmetic constants, fields of the certificate read, statuses produced, type assertions and loops, with same-package helpers folded in and shared util helpers counted as one callee — are compared under the pair's declared relation: mirror pairs must be equal after renaming the mirrored fields/OIDs (DNSNames↔IANDNSNames, …, Subject↔Issuer); an RFC copy must be contained in its BR copy (which adds the common-name check) with the same statuses; severity variants equal up to the finding status; the two DSA lints equal; the S/MIME AIA lint's Execute equal to the BR one's and its CheckApplies a superset; companions equal up to one threshold constant and the finding status, with the warning threshold not above the error threshold, the same applicability, the same source and a warning window that covers the error window. Editing one copy without the other changes exactly one fingerprint and is reported with the differing features. Premise, decided as well: the two copies of a rule run at different points of one lint run (registration order), so they agree only if they judge the same object — the interprocedural MOD summaries (C05 rules 1-2) show that no lint method writes memory reachable from the linted object or a package-level variable. Not a proof of behavioural equality: two bodies with equal fingerprints but different boolean structure are not distinguished."
+	r.Rule("pair-fingerprints; companion-threshold; companion-window; object-read-only; no-global-write")
 	r.Trusted = []string{"go/ssa", "the pair table (from the property's anchors, confirmed by reading)"}
 
 	cs := BuildCensus(c)
+	// premise: both copies of a rule judge the same object — no lint that may run
+	// between them rewrites the certificate or package-level state (C05 rules 1-2)
+	c05Effects(c, r, cs, NewEffects(c))
 	by := map[string]*Reg{}
 	for _, reg := range cs.Regs {
 		if reg.NameOK {
